@@ -197,6 +197,10 @@ RunFrom(body, i, env, ft) ==
     ELSE LET s == body[i]
              v == Eval(s.e, env, ft)
          IN CASE s.k = "assign" -> IF BadV(v) THEN Stop(v, env) ELSE RunFrom(body, i + 1, Bind(env, s.name, v), ft)
+              [] s.k = "chain" ->    \* x1 = x2 = ... = e : e once, then every target, left to right
+                    IF BadV(v) THEN Stop(v, env)
+                    ELSE RunFrom(body, i + 1, [y \in DOMAIN env \cup SeqRange(s.names) |->
+                                                  IF y \in SeqRange(s.names) THEN v ELSE env[y]], ft)
               [] s.k = "aug" ->      \* x op= e : x is read first, then e
                     IF s.name \notin DOMAIN env THEN Stop(Undef, env)
                     ELSE IF BadV(v) THEN Stop(v, env)
